@@ -159,6 +159,14 @@ where
             if canon(&names, ctx.stack_pointer_register_name()) != canon(&names, k.sp) || canon(&names, ctx.instruction_pointer_register_name()) != canon(&names, k.ip) {
                 fail(l, "sp-ip-names", format!("sp/ip register names {} / {}", ctx.stack_pointer_register_name(), ctx.instruction_pointer_register_name()));
             }
+            // the reported names are names for lookups: read by name (validity All) they give what the accessors give
+            for (nm, want) in [(ctx.stack_pointer_register_name(), mc.get_stack_pointer()), (ctx.instruction_pointer_register_name(), mc.get_instruction_pointer())] {
+                let a: Option<u64> = ctx.get_register(nm, &MinidumpContextValidity::All).map(|v| v.into());
+                let b = mc.get_register(nm);
+                if a != Some(want) || b != Some(want) {
+                    fail(l, "sp-ip-name-lookup", format!("register {nm} (the reported sp / ip name) reads {a:x?} / {b:x?} by name, the accessor gives {want:#x}"));
+                }
+            }
             let listed: Vec<(&str, u64)> = mc.registers().collect();
             let expect: Vec<(&str, u64)> = regs.iter().map(|r| (*r, model[r])).collect();
             if listed != expect {
